@@ -21,16 +21,18 @@
    Two variants of the code are modelled:
      Current = the tree with fixes/C06-atomic-claim.diff and fixes/C06-create-rollback-main-record.diff applied
               and with the per-client quota admission marker of commit 6d9c096 (fixes/C17-quota-per-client-admission.diff):
-              SetNX tunnox:runtime:conncode:admk:mappings:<listen client> right before the quota scan, Delete when
+              SetNX tunnox:runtime:conncode:admit:mappings:<listen client> right before the quota scan, Delete when
               the activation ends with any outcome (deferred; runs after the deferred claim release)
      Pinned  = the tree as found (no claim; no admission marker; main record left behind when the global-list append fails).
    The three repairs are independent flags of `cfg`, so intermediate trees are described as well. *)
 From Coq Require Import List Arith NArith Bool.
 Import ListNotations.
 
-Record cfg := { use_claim : bool; create_cleanup : bool; use_admit : bool }.
-Definition Current : cfg := {| use_claim := true; create_cleanup := true; use_admit := true |}.
-Definition Pinned : cfg := {| use_claim := false; create_cleanup := false; use_admit := false |}.
+Record cfg := { use_claim : bool; create_cleanup : bool; use_admit : bool;
+                purge_revoked : bool   (* NOT a tree variant: the listing's clean-up also purges revoked codes (refuted below) *) }.
+Definition Current : cfg := {| use_claim := true; create_cleanup := true; use_admit := true; purge_revoked := false |}.
+Definition Pinned : cfg := {| use_claim := false; create_cleanup := false; use_admit := false; purge_revoked := false |}.
+Definition PurgeRevoked : cfg := {| use_claim := true; create_cleanup := true; use_admit := true; purge_revoked := true |}.
 
 (* static scenario parameters *)
 Record params := {
@@ -57,24 +59,29 @@ Record sh := {
   by_code : option crec;
   by_id : option crec;
   claim : bool;                  (* ...:claim:<code> present *)
-  admk : list N;                (* ...:admk:mappings:<client> present (30 s TTL, independent of the code's expiry) *)
+  admk : list N;                (* ...:admit:mappings:<client> present (30 s TTL, independent of the code's expiry) *)
   mains : list mrec;             (* tunnox:port_mapping:<id> *)
   glob : list nat;               (* tunnox:mappings:list (ids of the entries) *)
-  cidx : list (N * nat)          (* tunnox:client_mappings:<client> entries *)
+  cidx : list (N * nat);         (* tunnox:client_mappings:<client> entries *)
+  tidx : bool                    (* the code's id is in tunnox:index:conncode:target:<target> (no TTL tied to the code) *)
 }.
 
 (* RRevoked: the revocation wrote the revoked record under both keys.  RGone: RevokeConnectionCode returned nil through
    repo.Update's delete branch because the code had already expired and vanished — nothing was written. *)
-Inductive res := ROk (m : nat) | RRevoked | RGone | RTick | RErr (e : N) | RUnmodelled.
+Inductive res := ROk (m : nat) | RRevoked | RGone | RTick | RErr (e : N) | RUnmodelled | RListed.
 
 Inductive pc :=
 | PGet | PQuota | PClaim | PMain | PGlob | PCleanup | PIdxL | PIdxT | PUpdCode | PUpdId
 | PRbL | PRbT | PRbGlob | PRbMain | PRelease (e : N) | PDelGet | PDone (r : res)
 | PAdmit                 (* parked at SetNX admission marker *)
-| PRelAdm (r : res).     (* parked at Delete admission marker; r is what the call then returns *)
+| PRelAdm (r : res)      (* parked at Delete admission marker; r is what the call then returns *)
+(* ListConnectionCodesByTargetClient (its first call, GetList of the target's index, is PGet of a KList thread) *)
+| PLGet                  (* repo.ListByTargetClient: GetByID of the indexed id *)
+| PLRm                   (* ... RemoveFromList of a dangling index entry *)
+| PPGet | PPDelCode | PPDelId | PPDelClaim | PPRmIdx.   (* the asynchronous clean-up: connCodeRepo.Delete(id) *)
 
 (* KAct listen laddr laddr_ok *)
-Inductive kind := KAct (l : N) (la : N) (ok : bool) | KRev | KTick.
+Inductive kind := KAct (l : N) (la : N) (ok : bool) | KRev | KTick | KList.
 
 Record lo := {
   l_me : nat;
@@ -96,21 +103,23 @@ Definition set_err (t : lo) (e : N) : lo :=
 Definition finish (t : lo) (r : res) : lo := set_pc t (PDone r).
 
 Definition set_expired (s : sh) : sh :=   (* TTL: code keys and claim vanish *)
-  {| expired := true; by_code := None; by_id := None; claim := false; admk := admk s; mains := mains s; glob := glob s; cidx := cidx s |}.
+  {| expired := true; by_code := None; by_id := None; claim := false; admk := admk s; mains := mains s; glob := glob s; cidx := cidx s; tidx := tidx s |}.
 Definition set_by_code (s : sh) (r : option crec) : sh :=
-  {| expired := expired s; by_code := r; by_id := by_id s; claim := claim s; admk := admk s; mains := mains s; glob := glob s; cidx := cidx s |}.
+  {| expired := expired s; by_code := r; by_id := by_id s; claim := claim s; admk := admk s; mains := mains s; glob := glob s; cidx := cidx s; tidx := tidx s |}.
 Definition set_by_id (s : sh) (r : option crec) : sh :=
-  {| expired := expired s; by_code := by_code s; by_id := r; claim := claim s; admk := admk s; mains := mains s; glob := glob s; cidx := cidx s |}.
+  {| expired := expired s; by_code := by_code s; by_id := r; claim := claim s; admk := admk s; mains := mains s; glob := glob s; cidx := cidx s; tidx := tidx s |}.
 Definition set_claim (s : sh) (b : bool) : sh :=
-  {| expired := expired s; by_code := by_code s; by_id := by_id s; claim := b; admk := admk s; mains := mains s; glob := glob s; cidx := cidx s |}.
+  {| expired := expired s; by_code := by_code s; by_id := by_id s; claim := b; admk := admk s; mains := mains s; glob := glob s; cidx := cidx s; tidx := tidx s |}.
 Definition set_mains (s : sh) (m : list mrec) : sh :=
-  {| expired := expired s; by_code := by_code s; by_id := by_id s; claim := claim s; admk := admk s; mains := m; glob := glob s; cidx := cidx s |}.
+  {| expired := expired s; by_code := by_code s; by_id := by_id s; claim := claim s; admk := admk s; mains := m; glob := glob s; cidx := cidx s; tidx := tidx s |}.
 Definition set_glob (s : sh) (g : list nat) : sh :=
-  {| expired := expired s; by_code := by_code s; by_id := by_id s; claim := claim s; admk := admk s; mains := mains s; glob := g; cidx := cidx s |}.
+  {| expired := expired s; by_code := by_code s; by_id := by_id s; claim := claim s; admk := admk s; mains := mains s; glob := g; cidx := cidx s; tidx := tidx s |}.
 Definition set_cidx (s : sh) (c : list (N * nat)) : sh :=
-  {| expired := expired s; by_code := by_code s; by_id := by_id s; claim := claim s; admk := admk s; mains := mains s; glob := glob s; cidx := c |}.
+  {| expired := expired s; by_code := by_code s; by_id := by_id s; claim := claim s; admk := admk s; mains := mains s; glob := glob s; cidx := c; tidx := tidx s |}.
+Definition set_tidx (s : sh) (b : bool) : sh :=
+  {| expired := expired s; by_code := by_code s; by_id := by_id s; claim := claim s; admk := admk s; mains := mains s; glob := glob s; cidx := cidx s; tidx := b |}.
 Definition set_admit (s : sh) (a : list N) : sh :=
-  {| expired := expired s; by_code := by_code s; by_id := by_id s; claim := claim s; admk := a; mains := mains s; glob := glob s; cidx := cidx s |}.
+  {| expired := expired s; by_code := by_code s; by_id := by_id s; claim := claim s; admk := a; mains := mains s; glob := glob s; cidx := cidx s; tidx := tidx s |}.
 
 (* one forward write: does it fail, and the remaining fault budget *)
 Definition tick_fault (f : option nat) : bool * option nat :=
@@ -220,6 +229,7 @@ Section Step.
     | PRelAdm r => (finish t r, set_admit s (filter (fun c => negb (N.eqb c l)) (admk s)))   (* ReleaseAdmission *)
     | PDelGet => (finish t RUnmodelled, s)
     | PDone _ => (t, s)
+    | _ => (finish t RUnmodelled, s)
     end.
 
   Definition rleave (e : N) : pc := if use_claim C then PRelease e else PDone (RErr e).
@@ -264,9 +274,36 @@ Section Step.
     | _ => (finish t RUnmodelled, s)
     end.
 
+  (* ListConnectionCodesByTargetClient by the code's owner (query.go) over repo.ListByTargetClient, followed by the
+     asynchronous clean-up goroutine (connCodeRepo.Delete) for a code that is expired and not activated.  The call itself
+     returns after PLGet / PLRm; the clean-up's storage calls are further steps of the same thread. *)
+  Definition list_step (t : lo) (s : sh) : lo * sh :=
+    match l_pc t with
+    | PGet => if tidx s then (set_pc t PLGet, s) else (finish t RListed, s)          (* GetList index *)
+    | PLGet =>
+        match by_id s with
+        | None => (set_pc t PLRm, s)                                                  (* expired/deleted: drop the index entry *)
+        | Some r => if (expired s && negb (c_act r)) || (purge_revoked C && c_rev r)
+                    then (set_pc t PPGet, s)                                          (* filtered out, clean-up spawned *)
+                    else (finish t RListed, s)
+        end
+    | PLRm => (finish t RListed, set_tidx s false)
+    | PPGet => match by_id s with                                                     (* Delete: GetByID *)
+               | None => (finish t RListed, s)
+               | Some _ => (set_pc t PPDelCode, s)
+               end
+    | PPDelCode => (set_pc t PPDelId, set_by_code s None)
+    | PPDelId => (set_pc t (if use_claim C then PPDelClaim else PPRmIdx), set_by_id s None)
+    | PPDelClaim => (set_pc t PPRmIdx, set_claim s false)                             (* Delete releases the claim marker *)
+    | PPRmIdx => (finish t RListed, set_tidx s false)
+    | PDone _ => (t, s)
+    | _ => (finish t RUnmodelled, s)
+    end.
+
   Definition tstep (t : lo) (s : sh) : lo * sh :=
     match l_kind t with
     | KAct l la ok => act_step l la ok t s
+    | KList => list_step t s
     | KRev => rev_step t s
     | KTick => match l_pc t with
                | PDone _ => (t, s)
@@ -282,11 +319,12 @@ Definition init_lo (me : nat) (k : kind) (nocode : bool) (f : option nat) : lo :
              | KAct l _ _ => if nocode || N.eqb l 0 then PDone (RErr EMissing) else PGet
              | KRev => PGet        (* the harness never revokes with an empty code *)
              | KTick => PGet
+             | KList => PGet
              end;
      l_snap := fresh_code; l_fault := f; l_err := 0 |}.
 
 Definition init_sh (code : option crec) : sh :=
-  {| expired := false; by_code := code; by_id := code; claim := false; admk := []; mains := []; glob := []; cidx := [] |}.
+  {| expired := false; by_code := code; by_id := code; claim := false; admk := []; mains := []; glob := []; cidx := []; tidx := true |}.
 
 (* gate-op code of the storage call a thread is parked at (harness/cmd/c06/main.go op* constants) *)
 Definition pc_code (p : pc) : nat :=
@@ -294,4 +332,12 @@ Definition pc_code (p : pc) : nat :=
   | PGet => 1 | PQuota => 2 | PClaim => 3 | PMain => 4 | PGlob => 5 | PIdxL => 6 | PIdxT => 7
   | PUpdCode => 8 | PUpdId => 9 | PRbL => 10 | PRbT => 11 | PRbGlob => 12 | PRbMain => 13 | PCleanup => 13
   | PRelease _ => 14 | PDelGet => 15 | PAdmit => 16 | PRelAdm _ => 17 | PDone _ => 0
+  | PLGet => 15 | PLRm => 21 | PPGet => 15 | PPDelCode => 18 | PPDelId => 19 | PPDelClaim => 14 | PPRmIdx => 21
+  end.
+
+(* the first call of a listing is the GetList of the target's code index (gate-op 22), everything else as pc_code *)
+Definition op_code (k : kind) (p : pc) : nat :=
+  match k, p with
+  | KList, PGet => 22
+  | _, _ => pc_code p
   end.
